@@ -611,3 +611,158 @@ func EPDirected(rng *rand.Rand) (EPCase, bool) {
 	}
 	return EPCase{Pos: p, From: from, To: to}, true
 }
+
+// KingNet samples positions that are dense around the king of the side to move: random men of both
+// colours in its neighbourhood, enemy sliders and knights aimed at the king or at its flight squares
+// from a distance, own pawns on their home rank and in front of the king (blocks by single and
+// double push), own men between king and enemy sliders (pins).  It is the directed generator for the
+// mate / stalemate tests: a large share of its output is in check, mated, stalemated or has only a
+// few legal moves.  Structural validity only (kings, pawn ranks, side not to move not in check).
+func KingNet(rng *rand.Rand) (Pos, bool) {
+	var p Pos
+	p.Full = 1
+	p.Black = rng.IntN(2) == 1
+	me, opp := p.Black, !p.Black
+	var k int
+	switch rng.IntN(4) {
+	case 0:
+		k = []int{0, 7, 56, 63}[rng.IntN(4)]
+	case 1, 2:
+		e := rng.IntN(8)
+		k = []int{e, 56 + e, 8 * e, 8*e + 7}[rng.IntN(4)]
+	default:
+		k = rng.IntN(64)
+	}
+	p.Men[k] = man(me, K)
+	kf, kr := k%8, k/8
+	near := func(s, d int) bool { return max(abs(s%8-kf), abs(s/8-kr)) <= d }
+	// enemy king far enough
+	var ek int
+	for try := 0; ; try++ {
+		ek = rng.IntN(64)
+		if !near(ek, 1) {
+			break
+		}
+		if try > 50 {
+			return p, false
+		}
+	}
+	p.Men[ek] = man(opp, K)
+	put := func(s int, m int8) bool {
+		if s < 0 || s > 63 || p.Men[s] != 0 {
+			return false
+		}
+		if kind(m) == P && (s/8 == 0 || s/8 == 7) {
+			return false
+		}
+		p.Men[s] = m
+		return true
+	}
+	dirs := [][2]int{{1, 0}, {-1, 0}, {0, 1}, {0, -1}, {1, 1}, {1, -1}, {-1, 1}, {-1, -1}}
+	// enemy long-range men aimed at the king zone
+	for i := rng.IntN(4); i > 0; i-- {
+		target := k
+		if rng.IntN(2) == 0 {
+			d := dirs[rng.IntN(8)]
+			f, r := kf+d[0], kr+d[1]
+			if f >= 0 && f < 8 && r >= 0 && r < 8 {
+				target = r*8 + f
+			}
+		}
+		d := dirs[rng.IntN(8)]
+		dist := 1 + rng.IntN(7)
+		f, r := target%8+d[0]*dist, target/8+d[1]*dist
+		if f < 0 || f > 7 || r < 0 || r > 7 {
+			continue
+		}
+		diag := d[0] != 0 && d[1] != 0
+		kd := Q
+		if rng.IntN(2) == 0 {
+			if diag {
+				kd = B
+			} else {
+				kd = R
+			}
+		}
+		put(r*8+f, man(opp, kd))
+	}
+	// enemy knights / pawns / men next to the king
+	for i := rng.IntN(3); i > 0; i-- {
+		j := [][2]int{{1, 2}, {2, 1}, {-1, 2}, {-2, 1}, {1, -2}, {2, -1}, {-1, -2}, {-2, -1}}[rng.IntN(8)]
+		f, r := kf+j[0], kr+j[1]
+		if rng.IntN(2) == 0 { // aimed at a neighbour square instead
+			d := dirs[rng.IntN(8)]
+			f, r = f+d[0], r+d[1]
+		}
+		if f >= 0 && f < 8 && r >= 0 && r < 8 {
+			put(r*8+f, man(opp, N))
+		}
+	}
+	for s := 0; s < 64; s++ {
+		if p.Men[s] != 0 || !near(s, 2) {
+			continue
+		}
+		switch x := rng.IntN(100); {
+		case x < 12:
+			put(s, man(me, []int{P, P, P, N, B, R, Q}[rng.IntN(7)]))
+		case x < 20:
+			put(s, man(opp, []int{P, P, N, B, R, Q}[rng.IntN(6)]))
+		}
+	}
+	// own pawns on their home rank and 3rd rank (double / single push interpositions), own blockers
+	home := 1
+	if me {
+		home = 6
+	}
+	for i := rng.IntN(4); i > 0; i-- {
+		rk := home
+		if rng.IntN(3) == 0 {
+			if me {
+				rk = home - 1
+			} else {
+				rk = home + 1
+			}
+		}
+		put(rk*8+rng.IntN(8), man(me, P))
+	}
+	for i := rng.IntN(3); i > 0; i-- {
+		put(rng.IntN(64), man(me, []int{N, B, R, Q, P}[rng.IntN(5)]))
+	}
+	for i := rng.IntN(3); i > 0; i-- {
+		put(rng.IntN(64), man(opp, []int{N, B, R, Q, P}[rng.IntN(5)]))
+	}
+	// en-passant target (rarely): an enemy pawn that just double-pushed next to one of my pawns
+	if rng.IntN(5) == 0 {
+		rk, back := 3, -8 // white just moved
+		if !me {          // I am white, black just moved
+			rk, back = 4, 8
+		}
+		for f := 0; f < 8; f++ {
+			s := rk*8 + f
+			if p.Men[s] == man(opp, P) && p.Men[s+back] == 0 && p.Men[s+2*back] == 0 {
+				for _, d := range []int{-1, 1} {
+					if f+d >= 0 && f+d < 8 && p.Men[s+d] == man(me, P) {
+						p.EP = s + back
+					}
+				}
+			}
+		}
+	}
+	// promotion bound
+	for _, black := range []bool{false, true} {
+		cnt := [7]int{}
+		for _, m := range p.Men {
+			if m != 0 && isBlack(m) == black {
+				cnt[kind(m)]++
+			}
+		}
+		extra := max(0, cnt[N]-2) + max(0, cnt[B]-2) + max(0, cnt[R]-2) + max(0, cnt[Q]-1)
+		if cnt[P]+extra > 8 {
+			return p, false
+		}
+	}
+	if p.InCheck(!p.Black) {
+		return p, false
+	}
+	return p, true
+}
